@@ -1496,6 +1496,9 @@ def unwrap(t: tp.Any) -> tp.Any:
             continue
         if istypealiastype(t):
             tv = t.__value__
+            # `None` as an annotation means `NoneType`.
+            if tv is None:
+                tv = type(None)
             if issubclass(type(tv), str):
                 return refs.forwardref(tv, module=t.__module__)
             lt = t
